@@ -1,3 +1,354 @@
-(** Proofs/Json_proofs.v — the json filter's output decodes to its input. *)
-From LQ Require Import Base.Str Kernels.Unescape Kernels.Json Proofs.Unescape_proofs.
+(** Proofs/Json_proofs.v — the json filter's output decodes to its input:
+    [json_decode (json_filter v) = Some v] for every JSON-like value whose
+    strings are sequences of Unicode scalar values. *)
+From LQ Require Import Base.Str Kernels.NumLit Kernels.Json Proofs.NumLit_proofs.
+From LQ Require Import Proofs.Unescape_proofs.
 Local Open Scope N_scope.
+
+Ltac Zify.zify_post_hook ::= Z.to_euclidean_division_equations.
+
+(** * Hex digits *)
+
+Lemma jhexval_hexdigit x : x < 16 -> jhexval (hexdigit x) = Some x.
+Proof.
+  intros H. unfold hexdigit, jhexval.
+  destruct (N.ltb_spec x 10).
+  - replace ((48 <=? 48 + x) && (48 + x <=? 57)) with true
+      by (symmetry; apply andb_true_iff; split; apply N.leb_le; lia).
+    f_equal. lia.
+  - replace ((48 <=? 87 + x) && (87 + x <=? 57)) with false
+      by (symmetry; apply andb_false_iff; right; apply N.leb_gt; lia).
+    replace ((65 <=? 87 + x) && (87 + x <=? 70)) with false
+      by (symmetry; apply andb_false_iff; right; apply N.leb_gt; lia).
+    replace ((97 <=? 87 + x) && (87 + x <=? 102)) with true
+      by (symmetry; apply andb_true_iff; split; apply N.leb_le; lia).
+    f_equal. lia.
+Qed.
+
+Lemma jhex4_hex4_of n : n < 65536 ->
+  match hex4_of n with
+  | [a; b; c; d] => jhex4 a b c d = Some n
+  | _ => False
+  end.
+Proof.
+  intros H. unfold hex4_of, jhex4.
+  rewrite !jhexval_hexdigit by lia. f_equal. lia.
+Qed.
+
+(** * Strings *)
+
+Definition scalar (c : N) : Prop := c < 0x110000 /\ ~ (0xD800 <= c <= 0xDFFF).
+Definition str_ok (s : str) : Prop := Forall scalar s.
+
+Lemma jstring_u_bmp c X : c < 65536 -> jhigh c = false ->
+  jstring (u_escape c ++ X) = jcons c (jstring X).
+Proof.
+  intros Hc Hh. pose proof (jhex4_hex4_of c Hc) as H4. unfold u_escape.
+  destruct (hex4_of c) as [|a [|b [|c1 [|d [|? ?]]]]]; try contradiction.
+  cbn [app jstring]. change (92 =? 34) with false. change (92 =? 92) with true.
+  change (117 =? 117) with true. cbn match. rewrite H4, Hh. cbn [andb].
+  destruct X as [|x [|y [|e1 [|f [|g [|h r10]]]]]]; reflexivity.
+Qed.
+
+Lemma surrogates_of c : 0x10000 <= c < 0x110000 ->
+  let n := c - 0x10000 in
+  let hi := N.lor 0xD800 (N.land (N.shiftr n 10) 0x3FF) in
+  let lo := N.lor 0xDC00 (N.land n 0x3FF) in
+  hi = 0xD800 + n / 1024 /\ lo = 0xDC00 + n mod 1024.
+Proof.
+  intros H n hi lo. subst hi lo.
+  assert (Hn : n < 0x100000) by (subst n; lia).
+  change 0x3FF with (N.ones 10). rewrite !N.land_ones, N.shiftr_div_pow2.
+  change (2 ^ 10) with 1024.
+  rewrite (N.mod_small (n / 1024) 1024) by lia.
+  change 0xD800 with (N.shiftl 54 10). change 0xDC00 with (N.shiftl 55 10).
+  rewrite !lor_shiftl_small by (change (2 ^ 10) with 1024; lia || (apply N.mod_lt; discriminate)).
+  change (2 ^ 10) with 1024. change (N.shiftl 54 10) with 55296. change (N.shiftl 55 10) with 56320.
+  split; lia.
+Qed.
+
+Lemma jhigh_false c : ~ (0xD800 <= c <= 0xDFFF) -> jhigh c = false.
+Proof.
+  intros H. unfold jhigh. destruct (N.leb_spec 0xD800 c), (N.leb_spec c 0xDBFF); cbn [andb];
+    try reflexivity. lia.
+Qed.
+
+Lemma jstring_escape_char c X : scalar c ->
+  jstring (json_escape_char c ++ X) = jcons c (jstring X).
+Proof.
+  intros [Hc Hs]. unfold json_escape_char.
+  destruct (N.eqb_spec c 34) as [->|N1]; [reflexivity|].
+  destruct (N.eqb_spec c 92) as [->|N2]; [reflexivity|].
+  destruct (N.eqb_spec c 10) as [->|N3]; [reflexivity|].
+  destruct (N.eqb_spec c 13) as [->|N4]; [reflexivity|].
+  destruct (N.eqb_spec c 9) as [->|N5]; [reflexivity|].
+  destruct (N.eqb_spec c 12) as [->|N6]; [reflexivity|].
+  destruct (N.eqb_spec c 8) as [->|N7]; [reflexivity|].
+  destruct ((32 <=? c) && (c <=? 126)) eqn:Ep.
+  { apply andb_true_iff in Ep as [E1 E2]. apply N.leb_le in E1, E2.
+    cbn [app jstring]. apply N.eqb_neq in N1, N2. rewrite N1, N2.
+    destruct (N.ltb_spec c 32); [lia|]. reflexivity. }
+  destruct (N.ltb_spec c 0x10000) as [Hb|Hb].
+  { apply jstring_u_bmp; [assumption|apply jhigh_false; assumption]. }
+  (* astral: a surrogate pair *)
+  destruct (surrogates_of c ltac:(lia)) as [Ehi Elo].
+  set (n := c - 0x10000) in *.
+  set (hi := N.lor 0xD800 (N.land (N.shiftr n 10) 0x3FF)) in *.
+  set (lo := N.lor 0xDC00 (N.land n 0x3FF)) in *.
+  assert (Hn : n < 0x100000) by (subst n; lia).
+  assert (Hhi : hi < 65536 /\ 0xD800 <= hi <= 0xDBFF) by (rewrite Ehi; lia).
+  assert (Hlo : lo < 65536 /\ 0xDC00 <= lo <= 0xDFFF) by (rewrite Elo; lia).
+  pose proof (jhex4_hex4_of hi (proj1 Hhi)) as H4h.
+  pose proof (jhex4_hex4_of lo (proj1 Hlo)) as H4l.
+  unfold u_escape.
+  destruct (hex4_of hi) as [|a [|b [|c1 [|d [|? ?]]]]]; try contradiction.
+  destruct (hex4_of lo) as [|e [|f [|g [|h [|? ?]]]]]; try contradiction.
+  cbn [app jstring]. change (92 =? 34) with false. change (92 =? 92) with true.
+  change (117 =? 117) with true. cbn match. rewrite H4h.
+  assert (Jh : jhigh hi = true)
+    by (unfold jhigh; apply andb_true_iff; split; apply N.leb_le; lia).
+  assert (Jl : jlow lo = true)
+    by (unfold jlow; apply andb_true_iff; split; apply N.leb_le; lia).
+  rewrite Jh. cbn [andb]. rewrite H4l, Jl.
+  replace (0x10000 + (hi - 0xD800) * 1024 + (lo - 0xDC00)) with c; [reflexivity|].
+  rewrite Ehi, Elo. subst n. lia.
+Qed.
+
+Lemma jstring_body s : str_ok s -> forall rest,
+  jstring (json_body s ++ 34 :: rest) = Some (s, rest).
+Proof.
+  induction 1 as [|c s Hc Hs IH]; intros rest; [reflexivity|].
+  unfold json_body. cbn [flat_map]. rewrite <- app_assoc.
+  rewrite (jstring_escape_char c _ Hc). fold (json_body s). rewrite IH. reflexivity.
+Qed.
+
+(** * Integers *)
+
+Lemma digits_value_acc_spec l : forall acc,
+  digits_value_acc l acc = (acc * 10 ^ Z.of_nat (length l) + digits_value l)%Z.
+Proof.
+  unfold digits_value. induction l as [|d l IH]; intros acc.
+  - cbn [digits_value_acc length]. change (10 ^ Z.of_nat 0)%Z with 1%Z. lia.
+  - cbn [digits_value_acc length]. rewrite (IH (10 * acc + Z.of_N (d - 48))%Z), (IH (10 * 0 + Z.of_N (d - 48))%Z).
+    rewrite Nat2Z.inj_succ, Z.pow_succ_r by lia. ring.
+Qed.
+
+Lemma digits_value_cons d l :
+  digits_value (d :: l) = (Z.of_N (d - 48) * 10 ^ Z.of_nat (length l) + digits_value l)%Z.
+Proof.
+  unfold digits_value at 1. cbn [digits_value_acc]. rewrite digits_value_acc_spec. f_equal; try lia. all: try (f_equal; lia).
+Qed.
+
+Lemma is_digit_48 n : n < 10 -> is_digit (48 + n) = true.
+Proof. intros H. unfold is_digit. apply andb_true_iff; split; apply N.leb_le; lia. Qed.
+
+Lemma dec_digits_spec f : forall n acc,
+  n < 10 ^ N.of_nat f -> all_digits acc ->
+  digits_value (dec_digits f n acc) = (Z.of_N n * 10 ^ Z.of_nat (length acc) + digits_value acc)%Z
+  /\ all_digits (dec_digits f n acc).
+Proof.
+  induction f as [|f IH]; intros n acc Hn Ha.
+  - cbn [dec_digits]. change (10 ^ N.of_nat 0) with 1 in Hn. assert (n = 0) as -> by lia.
+    split; [cbn; lia|assumption].
+  - cbn [dec_digits]. destruct (N.ltb_spec n 10) as [H10|H10].
+    + split.
+      * rewrite digits_value_cons. replace (48 + n - 48) with n by lia. reflexivity.
+      * unfold all_digits. cbn [forallb]. rewrite (is_digit_48 n H10). exact Ha.
+    + assert (Hq : n / 10 < 10 ^ N.of_nat f).
+      { apply N.div_lt_upper_bound; [discriminate|].
+        rewrite Nat2N.inj_succ, N.pow_succ_r' in Hn. exact Hn. }
+      assert (Ha' : all_digits ((48 + n mod 10) :: acc)).
+      { unfold all_digits. cbn [forallb]. rewrite (is_digit_48 (n mod 10)) by (apply N.mod_lt; discriminate).
+        exact Ha. }
+      destruct (IH (n / 10) ((48 + n mod 10) :: acc) Hq Ha') as [E1 E2]. split; [|exact E2].
+      rewrite E1, digits_value_cons. cbn [length]. rewrite Nat2Z.inj_succ, Z.pow_succ_r by lia.
+      replace (48 + n mod 10 - 48) with (n mod 10) by lia.
+      assert (En : Z.of_N n = (10 * Z.of_N (n / 10) + Z.of_N (n mod 10))%Z) by lia.
+      rewrite En. ring.
+Qed.
+
+Lemma dec_digits_nonempty f : forall n acc, acc <> [] -> dec_digits f n acc <> [].
+Proof.
+  induction f as [|f IH]; intros n acc H; [exact H|]. cbn [dec_digits].
+  destruct (n <? 10); [discriminate|]. apply IH. discriminate.
+Qed.
+
+Lemma N_dec_spec n :
+  digits_value (N_dec n) = Z.of_N n /\ all_digits (N_dec n) /\ N_dec n <> [].
+Proof.
+  unfold N_dec.
+  assert (Hn : n < 10 ^ N.of_nat (S (N.to_nat (N.size n)))).
+  { rewrite Nat2N.inj_succ, N2Nat.id, N.pow_succ_r'.
+    pose proof (N.size_gt n) as H2.
+    assert (2 ^ N.size n <= 10 ^ N.size n) by (apply N.pow_le_mono_l; lia).
+    assert (0 < 10 ^ N.size n) by (apply N.neq_0_lt_0, N.pow_nonzero; discriminate). lia. }
+  destruct (dec_digits_spec _ n [] Hn eq_refl) as [E1 E2].
+  split; [rewrite E1; cbn; lia|]. split; [exact E2|].
+  cbn [dec_digits]. destruct (n <? 10); [discriminate|]. apply dec_digits_nonempty. discriminate.
+Qed.
+
+(** What may follow a value inside a document: not something that would
+    continue a number. *)
+Definition tail_ok (rest : str) : Prop :=
+  match rest with
+  | [] => True
+  | c :: _ => is_digit c = false /\ (c =? DOT) || is_e c = false
+  end.
+
+Lemma jnumber_Z_dec z rest : tail_ok rest -> jnumber (Z_dec z ++ rest) = Some (JInt z, rest).
+Proof.
+  intros Ht.
+  assert (Hnd : hd_not_digit rest) by (destruct rest; [exact I|exact (proj1 Ht)]).
+  assert (Hfl : match rest with c :: _ => (c =? DOT) || is_e c | [] => false end = false)
+    by (destruct rest; [reflexivity|exact (proj2 Ht)]).
+  assert (Hpos : forall n, n <> 0 -> jnumber (N_dec n ++ rest) = Some (JInt (Z.of_N n), rest)
+                           /\ jnumber (45 :: N_dec n ++ rest) = Some (JInt (- Z.of_N n), rest)).
+  { intros n _. destruct (N_dec_spec n) as (E1 & E2 & E3).
+    destruct (all_digits_hd _ E2 E3) as (d & t & Ed & Hd & _).
+    unfold jnumber. split.
+    - rewrite Ed at 1. cbn [app opt_minus].
+      apply digit_facts in Hd as (Hm & _). apply N.eqb_neq in Hm. rewrite Hm.
+      change (d :: t ++ rest) with ((d :: t) ++ rest). rewrite <- Ed.
+      rewrite (span_digits_app _ _ E2 Hnd). rewrite Ed at 1. rewrite Hfl, E1. reflexivity.
+    - cbn [opt_minus]. change (45 =? MINUS) with true. cbn match.
+      rewrite (span_digits_app _ _ E2 Hnd). rewrite Ed at 1. rewrite Hfl, E1. reflexivity. }
+  destruct z as [|p|p]; cbn [Z_dec].
+  - unfold jnumber. cbn [app opt_minus]. change (48 =? MINUS) with false. cbn match.
+    change (48 :: rest) with ([48] ++ rest). rewrite (span_digits_app [48] rest eq_refl Hnd).
+    rewrite Hfl. reflexivity.
+  - apply (Hpos (Npos p)). discriminate.
+  - apply (Hpos (Npos p)). discriminate.
+Qed.
+
+(** * Values *)
+
+Inductive jv_ok : jv -> Prop :=
+| ok_null : jv_ok JNull
+| ok_bool b : jv_ok (JBool b)
+| ok_int z : jv_ok (JInt z)
+| ok_str s : str_ok s -> jv_ok (JStr s)
+| ok_list l : Forall jv_ok l -> jv_ok (JList l)
+| ok_dict kvs : Forall (fun kv => str_ok (fst kv) /\ jv_ok (snd kv)) kvs -> jv_ok (JDict kvs).
+
+(** Induction over values with the nested lists. *)
+Fixpoint jv_nested_ind (P : jv -> Prop)
+  (Hn : P JNull) (Hb : forall b, P (JBool b)) (Hi : forall z, P (JInt z)) (Hs : forall s, P (JStr s))
+  (Hl : forall l, Forall P l -> P (JList l))
+  (Hd : forall kvs, Forall (fun kv => P (snd kv)) kvs -> P (JDict kvs))
+  (v : jv) {struct v} : P v :=
+  match v with
+  | JNull => Hn
+  | JBool b => Hb b
+  | JInt z => Hi z
+  | JStr s => Hs s
+  | JList l =>
+      Hl l ((fix go (l : list jv) : Forall P l :=
+               match l with
+               | [] => Forall_nil P
+               | x :: r => Forall_cons x (jv_nested_ind P Hn Hb Hi Hs Hl Hd x) (go r)
+               end) l)
+  | JDict kvs =>
+      Hd kvs ((fix go (l : list (str * jv)) : Forall (fun kv => P (snd kv)) l :=
+                 match l with
+                 | [] => Forall_nil _
+                 | kv :: r => Forall_cons kv (jv_nested_ind P Hn Hb Hi Hs Hl Hd (snd kv)) (go r)
+                 end) kvs)
+  end.
+
+Fixpoint enc_items (l : list jv) : str :=
+  match l with
+  | [] => []
+  | x :: r => json_encode x ++ match r with [] => [] | _ => item_sep ++ enc_items r end
+  end.
+
+Fixpoint enc_members (l : list (str * jv)) : str :=
+  match l with
+  | [] => []
+  | (k, x) :: r => json_string k ++ key_sep ++ json_encode x
+                   ++ match r with [] => [] | _ => item_sep ++ enc_members r end
+  end.
+
+Lemma json_encode_list l : json_encode (JList l) = 91 :: enc_items l ++ [93].
+Proof.
+  reflexivity.
+Qed.
+
+Lemma json_encode_dict l : json_encode (JDict l) = 123 :: enc_members l ++ [125].
+Proof.
+  reflexivity.
+Qed.
+
+Lemma starts_app p rest : starts p (p ++ rest) = Some rest.
+Proof.
+  unfold starts. induction p as [|x p IH]; [reflexivity|]. cbn [app]. rewrite N.eqb_refl. exact IH.
+Qed.
+
+(** The decoding statement for one value, with enough fuel. *)
+Definition decodes (v : jv) : Prop :=
+  forall f rest, tail_ok rest -> (2 * length (json_encode v ++ rest) <= f)%nat ->
+  jvalue f (json_encode v ++ rest) = Some (v, rest).
+
+Lemma json_encode_nonempty v : exists c t, json_encode v = c :: t.
+Proof.
+  destruct v as [| [|] |z|s|l|l]; try (eexists _, _; reflexivity).
+  destruct z; cbn [json_encode Z_dec]; try (eexists _, _; reflexivity).
+  - destruct (N_dec_spec (N.pos p)) as (_ & _ & H). destruct (N_dec (N.pos p)); [congruence|].
+    eexists _, _; reflexivity.
+Qed.
+
+Lemma tail_ok_sep r : tail_ok (item_sep ++ r).
+Proof. split; reflexivity. Qed.
+Lemma tail_ok_93 r : tail_ok (93 :: r).
+Proof. split; reflexivity. Qed.
+Lemma tail_ok_125 r : tail_ok (125 :: r).
+Proof. split; reflexivity. Qed.
+
+Lemma jelems_enc l : l <> [] -> Forall decodes l -> forall f rest,
+  (2 * length (enc_items l ++ 93%N :: rest) + 1 <= f)%nat ->
+  jelems f (enc_items l ++ 93 :: rest) = Some (l, rest).
+Proof.
+  induction l as [|x r IH]; intros Hne Hall f rest Hf; [congruence|].
+  inversion Hall as [|? ? Hx Hr]; subst.
+  destruct f as [|f]; [lia|]. cbn [jelems].
+  destruct r as [|y r'].
+  - cbn [enc_items] in *. rewrite app_nil_r in *.
+    rewrite (Hx f (93 :: rest) (tail_ok_93 _)) by lia. reflexivity.
+  - change (enc_items (x :: y :: r')) with (json_encode x ++ item_sep ++ enc_items (y :: r')) in *.
+    rewrite <- !app_assoc in *.
+    set (R := enc_items (y :: r') ++ 93 :: rest) in *.
+    rewrite (Hx f (item_sep ++ R) (tail_ok_sep _)) by lia.
+    change (item_sep ++ R) with (44 :: 32 :: R) at 1. change (44 =? 93) with false. cbn match.
+    rewrite starts_app. unfold R.
+    rewrite (IH ltac:(discriminate) Hr f rest); [reflexivity|].
+    fold R. rewrite !app_length in Hf. cbn [length item_sep] in Hf. lia.
+Qed.
+
+Lemma jmembers_enc l : l <> [] ->
+  Forall (fun kv => str_ok (fst kv) /\ decodes (snd kv)) l -> forall f rest,
+  (2 * length (enc_members l ++ 125%N :: rest) + 1 <= f)%nat ->
+  jmembers f (enc_members l ++ 125 :: rest) = Some (l, rest).
+Proof.
+  induction l as [|[k x] r IH]; intros Hne Hall f rest Hf; [congruence|].
+  inversion Hall as [|? ? [Hk Hx] Hr]; subst. cbn [fst snd] in *.
+  destruct f as [|f]; [lia|]. cbn [jmembers].
+  assert (Es : forall T, enc_members ((k, x) :: r) ++ T
+            = 34 :: json_body k ++ 34 :: key_sep ++ json_encode x
+              ++ (match r with [] => [] | _ => item_sep ++ enc_members r end) ++ T).
+  { intros T. cbn [enc_members]. unfold json_string. cbn [app]. rewrite <- !app_assoc. cbn [app].
+    rewrite <- !app_assoc. reflexivity. }
+  rewrite Es in *. change (34 =? 34) with true. cbn match.
+  rewrite (jstring_body k Hk). rewrite starts_app.
+  repeat (rewrite app_length in Hf || progress cbn [length key_sep item_sep] in Hf).
+  destruct r as [|y r'].
+  - cbn [app] in *. rewrite (Hx f (125 :: rest) (tail_ok_125 _)) by (rewrite app_length; cbn [length]; lia).
+    reflexivity.
+  - rewrite <- app_assoc.
+    set (R := enc_members (y :: r') ++ 125 :: rest) in *.
+    assert (HR : (2 * length R + 1 <= f)%nat).
+    { unfold R. rewrite app_length. cbn [length]. lia. }
+    rewrite (Hx f (item_sep ++ R) (tail_ok_sep _))
+      by (rewrite !app_length; unfold R; rewrite app_length; cbn [length item_sep]; lia).
+    change (item_sep ++ R) with (44 :: 32 :: R) at 1. change (44 =? 125) with false. cbn match.
+    rewrite starts_app. unfold R.
+    rewrite (IH ltac:(discriminate) Hr f rest HR). reflexivity.
+Qed.
